@@ -4,12 +4,10 @@ mod masm;
 mod parse;
 mod trace;
 
-use std::io::{BufRead, BufWriter, Write};
+use std::io::BufRead;
 
 fn run_family(family: &str, path: &str) {
     let f = std::fs::File::open(path).expect("cases file");
-    let out = std::io::stdout();
-    let mut out = BufWriter::new(out.lock());
     for line in std::io::BufReader::new(f).lines() {
         let line = line.unwrap();
         if line.trim().is_empty() {
@@ -20,15 +18,20 @@ fn run_family(family: &str, path: &str) {
             "options" => exec::run_options(&line),
             "masm" => masm::run_masm(&line),
             "stream" => trace::run_stream(&line),
+            "iter" => trace::run_iter(&line),
+            "tracehash" => trace::run_tracehash(&line),
             "asmdump" => masm::run_asmdump(&line),
             _ => panic!("unknown family {family}"),
         };
-        writeln!(out, "{r}").unwrap();
+        // result lines carry a marker: the default host prints debug decorators to stdout
+        println!("@@ {r}");
     }
 }
 
 fn main() {
-    std::panic::set_hook(Box::new(|_| {}));
+    if std::env::var("MVH_TRACE").is_err() {
+        std::panic::set_hook(Box::new(|_| {}));
+    }
     let args: Vec<String> = std::env::args().collect();
     match args[1].as_str() {
         "dump-const" => dump::dump_const(),
